@@ -31,7 +31,7 @@ class Scn:
         return dict(op=self.op, nolock=self.nolock, locked=list(self.locked), collision=self.collision, tdev=self.tdev,
                     threads=self.threads, size=self.size, nfiles=self.nfiles, tinside=self.tinside, reldir=self.reldir,
                     extra_groups=self.extra_groups, names=[lib.printable(n) for n in self.names] if self.names else None,
-                    locktype=self.locktype)
+                    locktype=self.locktype, label=self.label)
 
 
 def content(tag, size):
@@ -216,8 +216,10 @@ class Locker:
     def __init__(self, paths, kind="ex"):
         self.proc = None
         if paths:
-            mode, lk = ("r+b", "LOCK_EX") if kind == "ex" else ("rb", "LOCK_SH")
-            code = (f"import fcntl,sys,os\nfds=[]\nfor p in sys.argv[1:]:\n f=open(os.fsencode(p),'{mode}'); fcntl.lockf(f,fcntl.{lk}); fds.append(f)\n"
+            # kinds: ex / sh = the whole file; eof = an appender's write lock from the end of the file on; far = one byte far beyond the end
+            mode, lk = ("rb", "LOCK_SH") if kind == "sh" else ("r+b", "LOCK_EX")
+            rng = {"eof": ",0,0,os.SEEK_END", "far": ",1,1<<30,0"}.get(kind, "")
+            code = (f"import fcntl,sys,os\nfds=[]\nfor p in sys.argv[1:]:\n f=open(os.fsencode(p),'{mode}'); fcntl.lockf(f,fcntl.{lk}{rng}); fds.append(f)\n"
                     "print('locked',flush=True)\nsys.stdin.read()\n")
             self.proc = subprocess.Popen(["python3", "-c", code] + list(paths), stdin=subprocess.PIPE, stdout=subprocess.PIPE)
             self.proc.stdout.readline()
@@ -308,6 +310,10 @@ def run_case(scn, plan=None, plan_class="none", report_fmt="default", emuclone=T
             args.append("--no-lock")
         with open(rep, "rb") as f:
             repdata = f.read()
+        if scn.label == "dotdot":
+            # a post-processed report: the same files, spelled with `..` and `.` components
+            gdir = os.path.join(root, "g").encode()
+            repdata = repdata.replace(gdir + b"/", gdir + b"/../g/./")
         r = lib.run_fclones(args, work, senv, stdin=repdata, timeout=60)
         locker.release()
         locker = None
